@@ -70,7 +70,14 @@ CHECKS = {
    "Every operation sequence over 2 prefix-related keys, 3-4 versions and 3 values (incl. all batches of <=2 entries and a reopen letter) is executed on the real stores in lock-step with a map reference; the canonical state set closes (100 store states quick), every read is compared after every step. Cloud store: all protocol-legal transactions of bounded length.",
    "Trusts redb itself and /dev/shm as a file system; torn writes inside redb are out of scope. Duplicate-key batches are compared between backends and against all-or-nothing/monotonicity only.",
    "7.1"),
+ "C20": (True, "concur", "model_checking",
+   "stateless model checking of the real Node under shuttle's runtime with an own preemption-bounded depth-first scheduler (iterative context bounding); linearizability by brute force against all sequential orders",
+   "vls-core is built with --cfg vls_verif so that every Mutex of its prelude (node state, channel map, channel slots, tracker, monitor state, stores) is shuttle's. For each of ~110 scenarios (every unordered pair of 14 request kinds - commitment updates, forget/new/setup channel, balance, heartbeat, keysend, on-chain check and signature, block with the channel's close (compact and streamed), empty block, allowlist - plus the single-channel races validate||revoke, sign-holder||revoke, sign-counterparty||counterparty-revocation; thorough adds triples) every schedule of the request threads with <= 1 (2) preemptions is executed to completion on a freshly built node, and <= 2 (3) preemptions as far as the budget goes; a schedule that cannot complete is a deadlock, and the tuple (replies, fingerprint of live state and store) must equal that of some sequential order of the same requests.",
+   "Scheduling points are mutex operations (sequentially consistent); locks taken directly from std (redb store) are not in the scenarios. Replaying a prefix with a different enabled set is a machinery error.",
+   "8"),
 }
+
+ENGINE_PATH = {"chanfsm+secretstore": "harness/src/chanfsm.rs", "history-engines": "harness/src/monitors.rs", "velocity+nodevel": "harness/src/nodevel.rs"}
 
 PENDING_REASON = "check not built yet in this session (planned, see DESIGN.md section 0)"
 
@@ -105,10 +112,11 @@ def main():
             "guard": "--cfg vls_verif",
             "enable": "RUSTFLAGS='--cfg vls_verif' (only the C20 build; every other check builds /repo unmodified through path dependencies)",
             "baseline_off_cmd": "cd /repo && cargo nextest run --workspace --no-fail-fast --offline --test-threads 8",
-            "source_commits": [],
-            "add_only": True,
+            "source_commits": ["b64786d"],
+            "add_only": False,
+            "add_only_note": "the hook adds a `vls_verif` disjunct to the three existing cfg predicates of the vls-core prelude (two pub use of the same names would collide) and a cfg-gated dependency; with the cfg off every predicate evaluates as before",
         },
-        "engines": [{"name": k, "path": "harness/src/%s.rs" % k, "serves_properties": v,
+        "engines": [{"name": k, "path": ENGINE_PATH.get(k, "harness/src/%s.rs" % k), "serves_properties": v,
                      "kind_free_text": "exhaustive bounded exploration driving the real implementation"} for k, v in sorted(engines.items())],
         "checks": checks,
         "not_applicable": na,
